@@ -147,6 +147,10 @@ def check(ctx, run):
     except Unknown as u:
         raise AnalysisBroken("C02.R2: a TestFilter cannot be built by folding its constructor and modifiers: %s" % u)
 
+    # the substring match behind a (non-strict) filter is SimpleString::contains -> StrStr
+    from .C13 import strstr_rule
+    strstr_rule(prog, run, "R2")
+
     # ---------------- R3 ----------------------------------------------------
     ARR = "UtestShellPointerArray"
     ws = sorted({f.qn for f, n in field_writers(prog, ARR + "::arrayOfTests_") if "k" in n and ("[" in render(f, f.node(n.get("lhs"))) if n.get("lhs") is not None else False)})
